@@ -776,6 +776,12 @@ class Translator:
             f = ctx['f']
             e = (s.get('inner') or [None])[0]
             if f.retmode == 'state':
+                # (C06, soundness fix) 'return a = a * b;' / 'return a += b;': the returned expression has an effect on the
+                # state.  Unless it is a plain reference to the state (return *this; return a;) translate it as an
+                # effect first -- it used to be dropped silently.  Anything trans_effect cannot handle is Unsupported.
+                if e is not None and not self.is_state_ref(e, ctx):
+                    pre, ctx2 = self.trans_effect(e, ctx)
+                    return pre + self.state_value(ctx2)
                 return self.state_value(ctx)
             if e is None:
                 raise Unsupported('return without value')
@@ -795,6 +801,17 @@ class Translator:
         # expression statement
         pre, ctx2 = self.trans_effect(s, ctx)
         return pre + self.trans_stmts(rest, ctx2)
+
+    def is_state_ref(self, e, ctx):
+        x = e
+        while isinstance(x, dict) and x.get('kind') in ('ImplicitCastExpr', 'ParenExpr', 'ExprWithCleanups', 'MaterializeTemporaryExpr') and x.get('inner'):
+            x = x['inner'][0]
+        f = ctx['f']
+        if x.get('kind') == 'UnaryOperator' and x.get('opcode') == '*' and x.get('inner') and x['inner'][0].get('kind') == 'CXXThisExpr':
+            return f.state == 'this'
+        if x.get('kind') == 'DeclRefExpr' and isinstance(f.state, int):
+            return (x.get('referencedDecl') or {}).get('id') == f.params[f.state][1]
+        return False
 
     def state_value(self, ctx):
         f = ctx['f']
